@@ -498,6 +498,95 @@ class SymStr:
                 return False
         return True
 
+    def _all(self, pred):
+        if not self.cells:
+            return False
+        for c in self.cells:
+            if not cell_test(c, pred):
+                return False
+        return True
+
+    def isalnum(self):
+        return self._all(str.isalnum)
+
+    def isalpha(self):
+        return self._all(str.isalpha)
+
+    def isdecimal(self):
+        return self._all(str.isdecimal)
+
+    def isnumeric(self):
+        return self._all(str.isnumeric)
+
+    def isascii(self):
+        return all(cell_test(c, str.isascii) for c in self.cells)
+
+    def isupper(self):
+        cased = False
+        for c in self.cells:
+            if cell_test(c, lambda ch: ch.islower() or unicodedata.category(ch) == 'Lt'):
+                return False
+            if cell_test(c, str.isupper):
+                cased = True
+        return cased
+
+    def islower(self):
+        cased = False
+        for c in self.cells:
+            if cell_test(c, lambda ch: ch.isupper() or unicodedata.category(ch) == 'Lt'):
+                return False
+            if cell_test(c, str.islower):
+                cased = True
+        return cased
+
+    def swapcase(self):
+        return _mk([c.swapcase() if isinstance(c, str) else c.mapped(str.swapcase) for c in self.cells])
+
+    def casefold(self):
+        return _mk([c.casefold() if isinstance(c, str) else c.mapped(str.casefold) for c in self.cells])
+
+    def zfill(self, w):
+        n = len(self.cells)
+        if w <= n:
+            return self
+        if self.cells and cell_test(self.cells[0], lambda ch: ch in '+-'):
+            return _mk(self.cells[:1] + ['0'] * (w - n) + self.cells[1:])
+        return _mk(['0'] * (w - n) + self.cells)
+
+    def rjust(self, w, fill=' '):
+        return _mk([fill] * max(0, w - len(self.cells)) + self.cells)
+
+    def ljust(self, w, fill=' '):
+        return _mk(self.cells + [fill] * max(0, w - len(self.cells)))
+
+    def partition(self, sep):
+        p = self.find(sep)
+        if p < 0:
+            return (self, '', '')
+        n = len(SymStr.lift(sep).cells)
+        return (_mk(self.cells[:p]), sep, _mk(self.cells[p + n:]))
+
+    def rpartition(self, sep):
+        p = self.rfind(sep)
+        if p < 0:
+            return ('', '', self)
+        n = len(SymStr.lift(sep).cells)
+        return (_mk(self.cells[:p]), sep, _mk(self.cells[p + n:]))
+
+    def removeprefix(self, pre):
+        return _mk(self.cells[len(SymStr.lift(pre).cells):]) if self.startswith(pre) else self
+
+    def removesuffix(self, suf):
+        n = len(SymStr.lift(suf).cells)
+        return _mk(self.cells[:len(self.cells) - n]) if n and self.endswith(suf) else self
+
+    def __getattr__(self, name):
+        if name.startswith('__') or name in ('cells',):
+            raise AttributeError(name)
+        if hasattr(str, name):
+            raise E.Unsupported('str.%s on a symbolic string is not modelled' % name)
+        raise AttributeError("'str' object has no attribute %r" % name)
+
     def encode(self, *a):
         raise E.Unsupported('encode of symbolic string')
 
